@@ -85,10 +85,12 @@ impl OperationControl for Repeat {
         let mut iterators: Vec<Box<dyn Iterator<Item = usize>>> = Vec::new();
         let mut positions = Vec::new();
         // position may lie beyond the end of the input when a precondition is
-        // probed at a fixed position
+        // probed at a fixed position. Iterations that match nothing must
+        // still be able to make up the minimum.
         let bound = self
             .max
-            .min((matcher.search.len() + 1).saturating_sub(position));
+            .min((matcher.search.len() + 1).saturating_sub(position))
+            .max(self.min);
         let mut p = position;
         if self.greedy {
             // Prime the arrays first with iterators up to the maximum length,
